@@ -562,21 +562,44 @@ func c11Big(st *vlib.Stats, n int, onFile bool) string {
 	}
 	val := []byte{1, 2, 3, 4}
 	next := 1
+	// after an insertion that allocated more than one page (an internal node was split, or the root
+	// moved) the next few insertions are each followed by a check - on a file: by a flush, a cold
+	// cache and a check -, because what such a split forgot to write out shows only while the
+	// pages concerned are not rewritten by the next split below them
+	closeLooks, closeLooksDone := 0, 0
 	for i := 0; i < n; i++ {
+		var before uint64
+		if fs != nil {
+			before = fs.nextFreeOffset
+		}
 		if _, _, err := bt.insert(val); err != nil {
 			return fmt.Sprintf("insert %d failed: %v", i, err)
 		}
-		if i+1 == next {
+		if fs != nil && fs.nextFreeOffset-before >= 2*pageSize && closeLooksDone < 400 {
+			closeLooks = 6
+		}
+		if i+1 == next || closeLooks > 0 {
+			if closeLooks > 0 {
+				closeLooks--
+				closeLooksDone++
+				st.Label("big-tree-reload-right-after-internal-split", 1)
+				if err := fs.flushPages(); err != nil {
+					return err.Error()
+				}
+				fs.cache = NewLRU(10000)
+			}
 			if msg := check(fmt.Sprintf("after %d inserts", i+1)); msg != "" {
 				return msg
 			}
-			switch {
-			case next < 64:
-				next++
-			case next < 4000:
-				next += 97
-			default:
-				next += n / 6
+			if i+1 == next {
+				switch {
+				case next < 64:
+					next++
+				case next < 4000:
+					next += 97
+				default:
+					next += n / 6
+				}
 			}
 			if fs != nil {
 				if err := fs.flushPages(); err != nil {
